@@ -344,7 +344,9 @@ fn process_request_obj(request: &Request, dbs: &Arc<Databases>, client: &mut Cli
             create_db(&name, &token, &dbs, &client, strategy)
         }),
 
-        Request::ElectionActive { node_name: _ } => Response::Ok {}, //Nothing need to be done here now
+        Request::ElectionActive { node_name: _ } => {
+            apply_if_auth(&client.auth, &|| Response::Ok {}) //Nothing need to be done here now
+        }
         Request::ElectionWin {} => apply_if_auth(&client.auth, &|| election_win(&dbs)),
         Request::Election { id, node_name } => {
             apply_if_auth(&client.auth, &|| election_eval(&dbs, id, &node_name))
